@@ -23,7 +23,7 @@ EXTENDS Integers, Sequences, FiniteSets, TLC, Json, IOUtils
 Trace == ndJsonDeserialize(IOEnv.VERIF_TRACE)
 
 VARIABLES i, prog,
-          mons,      \* [monitor id -> [root, kind, prio, st]]  st: new | active | skipped | done
+          mons,      \* [monitor id -> [root, kind, prio, st, trig]]  st: new | active | skipped | done
           ran,       \* [monitor id -> Seq of [rule, failed, ended]]
           queue,     \* [root -> Seq of [m, prio]] in push order
           handled,   \* [root -> Nat] finish notifications
@@ -89,15 +89,17 @@ Ok(e) ==
                            /\ {<<p[1], p[2]>> : p \in SeqToSet(e.errs)} = FailedPairs(e.r)
                            /\ Len(e.errs) = Cardinality(FailedPairs(e.r))
     [] e.ev = "final" -> /\ \A m \in DOMAIN mons : mons[m].st = "done"
-                         /\ \A m \in DOMAIN mons : mons[m].root = m => (m \in DOMAIN handled /\ handled[m] = 1)
+                         \* one finish notification per cascade; a root event that triggered nothing started no cascade
+                         /\ \A m \in DOMAIN mons : mons[m].root = m =>
+                               IF mons[m].trig THEN (m \in DOMAIN handled /\ handled[m] = 1) ELSE m \notin DOMAIN handled
                          /\ \A r \in DOMAIN queue : queue[r] = <<>>
                          /\ ~ e.b                                                 \* no caller blocked for ever
     [] OTHER -> FALSE
 
 Apply(e) ==
-  /\ mons' = CASE e.ev = "root"     -> With(mons, e.m, [root |-> e.m, kind |-> e.k, prio |-> 0, st |-> "new"])
-               [] e.ev = "child"    -> With(mons, e.m, [root |-> mons[e.par].root, kind |-> e.k, prio |-> e.p, st |-> "new"])
-               [] e.ev = "activate" -> [mons EXCEPT ![e.m].st = "active"]
+  /\ mons' = CASE e.ev = "root"     -> With(mons, e.m, [root |-> e.m, kind |-> e.k, prio |-> 0, st |-> "new", trig |-> FALSE])
+               [] e.ev = "child"    -> With(mons, e.m, [root |-> mons[e.par].root, kind |-> e.k, prio |-> e.p, st |-> "new", trig |-> FALSE])
+               [] e.ev = "activate" -> [mons EXCEPT ![e.m].st = "active", ![e.m].trig = TRUE]
                [] e.ev = "skipped"  -> [mons EXCEPT ![e.m].st = "skipped"]
                [] e.ev = "finished" -> [mons EXCEPT ![e.m].st = "done"]
                [] OTHER -> mons
